@@ -68,8 +68,13 @@ inductive ClientAct where
   | withBody (raises : Bool)      -- `async with api:` body that returns / raises
 deriving Repr, DecidableEq
 
-def clientConnect (s : ClientState) : ClientState :=
-  { connected := true, current := some s.next, openSocks := s.next :: s.openSocks, next := s.next + 1 }
+/-- `connect()`.  `reclaim`: what the runtime does with the socket of an earlier connection that the client connects over
+    without disconnecting — the client just overwrites its reader/writer; on CPython ≥ 3.11.5 the unreferenced
+    `StreamWriter` closes its transport when it is collected (`reclaim = true`, what the harness observes here), on older
+    runtimes it stays open until the process ends (`reclaim = false`). -/
+def clientConnect (reclaim : Bool) (s : ClientState) : ClientState :=
+  { connected := true, current := some s.next, next := s.next + 1,
+    openSocks := s.next :: (if reclaim then s.openSocks.filter (fun k => some k != s.current) else s.openSocks) }
 
 def clientDisconnect (s : ClientState) : ClientState :=
   match s.current with
@@ -77,19 +82,19 @@ def clientDisconnect (s : ClientState) : ClientState :=
   | none => { s with connected := false }
 
 /-- output: what the caller sees ("ok" / "raise …") -/
-def clientStep (s : ClientState) : ClientAct → ClientState × Out
-  | .connectOk => (clientConnect s, .ok)
+def clientStep (reclaim : Bool) (s : ClientState) : ClientAct → ClientState × Out
+  | .connectOk => (clientConnect reclaim s, .ok)
   | .connectRefused => (s, .raiseOSError)
   | .opOk => (s, .ok)
   | .opRaises => (s, .raiseRuntimeError)
   | .disconnect => (clientDisconnect s, .ok)
-  | .withBody raises => (clientDisconnect (clientConnect s), if raises then .raiseBodyError else .ok)
+  | .withBody raises => (clientDisconnect (clientConnect reclaim s), if raises then .raiseBodyError else .ok)
 
-def clientRunActs (s : ClientState) : List ClientAct → ClientState × List Out
+def clientRunActs (reclaim : Bool) (s : ClientState) : List ClientAct → ClientState × List Out
   | [] => (s, [])
   | a :: as =>
-    let (s', o) := clientStep s a
-    let (s'', os) := clientRunActs s' as
+    let (s', o) := clientStep reclaim s a
+    let (s'', os) := clientRunActs reclaim s' as
     (s'', o :: os)
 
 def clientInit : ClientState := { connected := false, current := none, openSocks := [], next := 0 }
